@@ -76,6 +76,7 @@ type req struct {
 	vc    *vctx
 	rw    bool
 	timer *thread
+	dur   time.Duration
 }
 
 type thread struct {
@@ -85,6 +86,7 @@ type thread struct {
 	pend      req
 	done      bool
 	timer     bool
+	dur       time.Duration // a timer thread's duration: a longer timer never fires while a shorter one is armed
 	relock    bool
 	signalled bool
 	granted   bool
@@ -136,6 +138,8 @@ type Result struct {
 	FinalKey       uint64
 	TimerEarly     bool // a virtual timer fired although another thread could still run
 	TimerFired     bool
+	TimerDurs      []time.Duration // durations of the virtual timers that fired, in firing order
+	TimerQuiescent []time.Duration // of those, the ones that fired when no other thread could run (something was waiting for them)
 }
 
 // Choices returns the chosen indices of the execution.
@@ -244,7 +248,16 @@ func invariant(ok bool, msg string) {
 func (s *sched) enabled(t *thread) bool {
 	r := &t.pend
 	switch r.op {
-	case opStart, opAccess, opCondWait, opTimer, opTryLock, opTryRLock, opTrySem:
+	case opStart, opAccess, opCondWait, opTryLock, opTryRLock, opTrySem:
+		return true
+	case opTimer:
+		// virtual time: the computation itself takes no time, so timers fire in the order of their
+		// durations; one with a strictly shorter duration that is still armed fires (or is stopped) first
+		for _, o := range s.threads {
+			if o != t && o.timer && !o.done && o.pend.op == opTimer && o.dur < t.dur {
+				return false
+			}
+		}
 		return true
 	case opLock:
 		return s.obj(r.obj).held == nil
@@ -470,10 +483,17 @@ func (s *sched) loop() {
 		next := s.threads[en[choice]]
 		if next.timer {
 			s.res.TimerFired = true
+			s.res.TimerDurs = append(s.res.TimerDurs, next.dur)
+			early := false
 			for _, id := range en {
 				if !s.threads[id].timer {
-					s.res.TimerEarly = true
+					early = true
 				}
+			}
+			if early {
+				s.res.TimerEarly = true
+			} else {
+				s.res.TimerQuiescent = append(s.res.TimerQuiescent, next.dur)
 			}
 		}
 		rf := true
@@ -558,7 +578,7 @@ func (s *sched) loop() {
 				o.count += r.n
 				invariant(o.count >= 0, "negative WaitGroup counter")
 			case opSpawn:
-				nt := &thread{id: len(s.threads), wake: make(chan struct{}), h: mix(t.h, 15), timer: r.n == 1}
+				nt := &thread{id: len(s.threads), wake: make(chan struct{}), h: mix(t.h, 15), timer: r.n == 1, dur: r.dur}
 				t.h = mix(t.h, 16)
 				nt.pend = req{t: nt, op: opStart}
 				if nt.timer {
@@ -698,8 +718,12 @@ func Access(name string, write bool) {
 // from the race detector), so cancellation is mirrored in a flag only norace code reads.
 type vctx struct {
 	context.Context
-	done bool
+	done     bool
+	parent   *vctx // the enclosing virtual-timer context, if any: its cancellation is this one's too
+	deadline time.Time
 }
+
+func (v *vctx) Deadline() (time.Time, bool) { return v.deadline, true }
 
 type vctxKey struct{}
 
@@ -711,7 +735,14 @@ func (v *vctx) Value(k interface{}) interface{} {
 }
 
 //go:norace
-func isDone(v *vctx) bool { return v != nil && v.done }
+func isDone(v *vctx) bool {
+	for ; v != nil; v = v.parent {
+		if v.done {
+			return true
+		}
+	}
+	return false
+}
 
 //go:norace
 func markDone(v *vctx) { v.done = true }
@@ -753,11 +784,11 @@ func WithTimeout(parent context.Context, d time.Duration) (context.Context, cont
 		return context.WithTimeout(parent, d)
 	}
 	inner, cancel := context.WithCancel(parent)
-	v := &vctx{Context: inner}
-	if pv := vctxOf(parent); pv != nil && isDone(pv) {
-		markDone(v)
+	v := &vctx{Context: inner, parent: vctxOf(parent), deadline: time.Now().Add(d)}
+	if pd, ok := parent.Deadline(); ok && pd.Before(v.deadline) {
+		v.deadline = pd
 	}
-	call(req{op: opSpawn, n: 1})
+	call(req{op: opSpawn, n: 1, dur: d})
 	tt := spawnedOf()
 	go threadMain(tt, func() { markDone(v); cancel() })
 	return v, func() {
